@@ -388,6 +388,49 @@ exp(N, CL, "harmless", "result of the legacy call through a local; keyword order
     "    if has_v1_part:\n        return v1version.incr(\n            old_version,\n            minor=minor,\n            raw_pattern=raw_pattern,\n            major=major,")
 
 
+# ---- rewrite kinds of the three independent harmless refactorings (harmless1/2/3.diff), plus semantic edits next to them --
+N = "v1IncrDispatch"
+ANY = "    has_v1_part = any(\"{\" + part + \"}\" in raw_pattern for part in v1_parts)\n"
+exp(N, CL, "harmless", "explicit flag loop with `break` instead of any(...) (harmless2)", ANY,
+    "    has_v1_part = False\n    for part in v1_parts:\n        if \"{\" + part + \"}\" in raw_pattern:\n            has_v1_part = True\n            break\n")
+exp(N, CL, "break", "flag loop that sets the flag to False (never legacy)", ANY,
+    "    has_v1_part = False\n    for part in v1_parts:\n        if \"{\" + part + \"}\" in raw_pattern:\n            has_v1_part = False\n            break\n")
+exp(N, CL, "break", "flag loop testing `part in raw_pattern`", ANY,
+    "    has_v1_part = False\n    for part in v1_parts:\n        if part in raw_pattern:\n            has_v1_part = True\n            break\n")
+N = "v1IsValid"
+TRY = "    try:\n        parse_version_info(version_str, raw_pattern)\n        return True\n    except version.PatternError:\n        return False"
+exp(N, V1, "harmless", "try / except / else (harmless3)", TRY,
+    "    try:\n        parse_version_info(version_str, raw_pattern)\n    except version.PatternError:\n        return False\n    else:\n        return True")
+exp(N, V1, "break", "try / except / else with `else: return False`", TRY,
+    "    try:\n        parse_version_info(version_str, raw_pattern)\n    except version.PatternError:\n        return False\n    else:\n        return False")
+N = "v1NormalizedPattern"
+OR4 = ("    elif version_pattern == r\"v{year}{month}{build}{release}\":\n        res = res.replace(r\"{pep440_version}\", r\"{year}{month}.{BID}{pep440_tag}\")\n"
+       "    elif version_pattern == r\"{year}{month}{build}{release}\":\n        res = res.replace(r\"{pep440_version}\", r\"{year}{month}.{BID}{pep440_tag}\")\n")
+exp(N, P1, "harmless", "`version_pattern in (a, b)` for two branches with the same replacement (harmless3)", OR4,
+    "    elif version_pattern in (r\"v{year}{month}{build}{release}\", r\"{year}{month}{build}{release}\"):\n"
+    "        res = res.replace(r\"{pep440_version}\", r\"{year}{month}.{BID}{pep440_tag}\")\n")
+exp(N, P1, "break", "`version_pattern in (a, b)` with a wrong member", OR4,
+    "    elif version_pattern in (r\"v{year}{month}{build}{release}\", r\"{year}{month}{build}\"):\n"
+    "        res = res.replace(r\"{pep440_version}\", r\"{year}{month}.{BID}{pep440_tag}\")\n")
+N = "v1ParseFieldValues"
+exp(N, V1, "harmless", "nested ifs for the century, `month and quarter is None`, bid default first (harmless3)",
+    "    if year is not None and year < 100:\n        year += 2000", "    if year is not None:\n        if year < 100:\n            year += 2000",
+    also=[("    if quarter is None and month:", "    if month and quarter is None:"),
+          ("    bid = fvals['bid'] if 'bid' in fvals else \"0001\"", "    bid = \"0001\" if 'bid' not in fvals else fvals['bid']")])
+exp(N, V1, "break", "`month and quarter is None` -> `month or quarter is None`",
+    "    if quarter is None and month:", "    if month or quarter is None:")
+N = "v1FormatVersion"
+exp(N, V1, "harmless", "commuted `.lower()` comparison, conditional expression with isinstance, inlined width (harmless3)",
+    "        if part_name.lower() == field.lower():\n            if isinstance(val, str):\n                kwargs[part_name] = int(val, base=10)\n"
+    "            else:\n                kwargs[part_name] = val",
+    "        if field.lower() == part_name.lower():\n            kwargs[part_name] = int(val, base=10) if isinstance(val, str) else val",
+    also=[("            padded_len = len(part_name)\n            kwargs[part_name] = str(val).zfill(padded_len)",
+           "            kwargs[part_name] = str(val).zfill(len(part_name))")])
+exp(N, V1, "break", "conditional expression with the isinstance branches exchanged",
+    "            if isinstance(val, str):\n                kwargs[part_name] = int(val, base=10)\n            else:\n                kwargs[part_name] = val",
+    "            kwargs[part_name] = val if isinstance(val, str) else int(val, base=10)")
+
+
 # ---- the five seeded C20 changes of the earlier rounds, applied as the original patches ---------------------------
 def exp_patch(name, seeded_dir):
     E.append(dict(name=name, file=None, kind="break", label="seeded/%s (patch.diff as committed)" % seeded_dir,
@@ -401,6 +444,18 @@ exp_patch("v1NormalizedPattern", "C20-pep440-month-dropped")
 exp_patch("v1FormatVersion", "C20-pep440-tag-dotted-post")
 
 
+# ---- the three independent behaviour-preserving refactorings (whole-file patches): every function of the group must
+#      still translate and prove.  The patches live outside the repository ($HARMLESS_DIR, default /tmp/proofwork).
+ALL_NAMES = ["v1ParseFieldValues", "v1ParseGroups", "v1ParseVersionInfo", "v1IsValid", "v1Incr", "v1FormatVersion",
+             "v1ReplacePatternParts", "v1CompilePatternRe", "v1NormalizedPattern", "v1CompilePattern", "v1IncrDispatch"]
+for _n in (1, 2, 3):
+    _p = os.path.join(os.environ.get("HARMLESS_DIR", "/tmp/proofwork"), "harmless%d.diff" % _n)
+    if os.path.exists(_p):
+        for _name in ALL_NAMES:
+            E.append(dict(name=_name, file=None, kind="harmless", label="harmless%d.diff (whole patch)" % _n,
+                          patch=_p, refactoring=True, old="", new="", also=[]))
+
+
 def run(cmd, **kw):
     return subprocess.run(cmd, stdout=subprocess.PIPE, stderr=subprocess.STDOUT, text=True, **kw)
 
@@ -408,6 +463,7 @@ def run(cmd, **kw):
 def main():
     only = set(a for a in sys.argv[1:] if not a.startswith("-"))
     seeded_only = "--seeded" in sys.argv
+    refac_only = "--refactorings" in sys.argv
     import translate_v1
     results = []
     scratch = tempfile.mkdtemp(prefix="v1tie_")
@@ -420,7 +476,9 @@ def main():
         for e in E:
             if only and e["name"] not in only:
                 continue
-            if seeded_only and not e.get("patch"):
+            if seeded_only and not (e.get("patch") and not e.get("refactoring")):
+                continue
+            if refac_only and not e.get("refactoring"):
                 continue
             if os.path.exists(os.path.join(scratch, "src")):
                 shutil.rmtree(os.path.join(scratch, "src"))
@@ -488,7 +546,7 @@ def main():
     okb = sum(1 for e, _, v in results if e["kind"] == "break" and v == "as intended")
     okh = sum(1 for e, _, v in results if e["kind"] == "harmless" and v == "as intended")
     say("SUMMARY: %d/%d semantic edits break the tie, %d/%d harmless rewrites still prove" % (okb, nb, okh, nh))
-    if not only and not seeded_only:
+    if not only and not seeded_only and not refac_only:
         with open(os.path.join(HERE, "v1_tie_experiments.out.txt"), "w", encoding="utf-8") as f:
             f.write("\n".join(out_lines) + "\n")
     return 0
